@@ -245,8 +245,12 @@ def gen_dest(ctx, asset, depth, amount):
             clauses.append(("max %s %s" % (gen_monetary(ctx, asset, cap), kt), (cap, kd)))
         rt, rd = gen_kod(ctx, asset, depth - 1, amount)
         ctx.features.add("dst-inorder")
-        return "{ " + " ".join(t for t, _ in clauses) + " remaining " + rt + " }", \
-            ('inorder', [c for _, c in clauses], rd)
+        text = "{ " + " ".join(t for t, _ in clauses) + " remaining " + rt + " }"
+        if not clauses:
+            # `{ remaining X }` is read by the grammar as a one-clause allotment (first alternative),
+            # whose target is evaluated even for a zero amount
+            return text, ('allot', [(None, rd)])
+        return text, ('inorder', [c for _, c in clauses], rd)
     k = r.choice([1, 2, 2, 3, 4])
     portions = gen_portions(ctx, k)
     items = []
